@@ -98,6 +98,56 @@ class ListOf(C.Shape):
             s.sample(rng, asg)
 
 
+# ---- _Redirect: every alternative that is redirected into the target of a merge must CONVERT to the target's type ------------
+# (`u8 <<= s8 if c else u8`: the alternatives stay separate, each is assigned to the target by a _Redirect; an alternative
+#  the conversion matrix rejects -- equal width, other signedness -- must reject the design, not be reinterpreted)
+from cohdl import Signal  # noqa: E402
+from cohdl._core._type_qualifier import TypeQualifier  # noqa: E402
+from contracts.core_models import vec, width  # noqa: E402
+from contracts.c05_convert import KINDS  # noqa: E402
+from contracts.c05_format_cast import Built  # noqa: E402
+
+
+def redirect_target(kind):
+    def make(env):
+        W = SCls(kind, width=env["tw"])
+        t = SObj(Signal, _value=vec(kind, env["tw"], 0, known=False), _ref_spec=[], _attributes=[], type=W)
+        t.fields["_root"] = t
+        return t
+
+    return Built(["tw"], make, lambda asg: "None", lambda asg: None, lambda env: env["tw"] >= 1)
+
+
+def redirect_source(kind):
+    def make(env):
+        p = vec(kind, env["w2"], env["b"])
+        o = SObj(Signal, _value=p, _ref_spec=[], _attributes=[])
+        o.fields["_root"] = o
+        return o
+
+    return Built(["w2", "b"], make, lambda asg: "None", lambda asg: None, lambda env: sym.And(env["w2"] >= 1, env["b"] >= 0, env["b"] < sym.pow2(env["w2"])))
+
+
+def redirect_spec(tkind):
+    def spec(sx, self, target, source):
+        convert(sx, tkind, target.fields["type"].params["width"], source.fields["_value"])  # rejected pairs are rejected here
+        real = sx.real_args
+
+        def holds(res):
+            return res is None and real[0].fields.get("target") is real[1] and real[0].fields.get("source") is real[2]
+
+        return C.Pred(holds, "records (target, source) once the source converts to the target type")
+
+    return spec
+
+
+con = contract("cohdl._compiler.frontend._value_branch:_Redirect.__init__", PROPS)
+for TK, _, _ in KINDS:
+    for SK, _, _ in KINDS:
+        c = Case(f"{TK.__name__}<-rt-{SK.__name__}", [Built([], lambda env: SObj(VB._Redirect), lambda a: "None", lambda a: None), redirect_target(TK), redirect_source(SK)], redirect_spec(TK))
+        c.native = False
+        con.cases.append(c)
+
 con = contract("cohdl._compiler.frontend._value_branch:_try_join", PROPS)
 for n in (1, 2, 3):
     for kinds in itertools.product(OPTIONS, repeat=n):
